@@ -114,6 +114,16 @@ def match_finding(ctx, v):
 
 def prove(ctx, module, theorems, files):
     """lake build the property's module and the driver, audit axioms, grep for escapes."""
+    # the generated parts of the model always reflect the tree under test NOW (a file left behind by a run against another
+    # tree must never be built against); a translator that cannot read the source leaves its file as it is — the properties
+    # that depend on it run it themselves and report that
+    for name in ("extract_consts", "extract_guards", "extract_migration"):
+        try:
+            import importlib
+            importlib.import_module("harness." + name).run()
+        except Exception as e:  # noqa: BLE001
+            ctx.count("translator_failed:" + name)
+            ctx.notes.append(f"{name} failed: {type(e).__name__}: {e}")
     ok, out, dt = lake.build([module, "d42model"])
     ctx.cov["lake_build_s"] = round(dt, 2)
     if not ok:
